@@ -57,6 +57,7 @@ def gen_case(rng, tier, i):
     req = rng.sample(names, r)
     spelling = rng.choice(["tuple", "list", "str"]) if r == 1 else rng.choice(["tuple", "list"])
     return {"axes": axes, "mvars": mvars, "registry": registry, "pos": pos, "req": req,
+            "grid_boundary": rng.choice(["extend", "fill", "periodic"]), "grid_fill": rng.choice([0.0, 7.0, -2.5]),
             "spelling": spelling, "op": rng.choice(["get_metric", "integrate", "average", "derivative", "weighted"]),
             "seed": rng.randrange(1 << 30)}
 
@@ -88,12 +89,27 @@ def oracle_selection(case):
     return None
 
 
+def interp_to_like(grid, case, v, like):
+    """nearest-value-extension interpolation of `v` to the positions of `like`, hop by hop through the real
+    Grid.interp with the rule spelled out at every hop (C01/C02 verify Grid.interp; interp_like is NOT used)"""
+    for a in case["axes"]:
+        inv = {d: p for p, d in a["coords"].items()}
+        have = next((inv[d] for d in v.dims if d in inv), None)
+        want = next((inv[d] for d in like.dims if d in inv), None)
+        if have is None or want is None or have == want:
+            continue
+        if have != "center" and want != "center":
+            v = grid.interp(v, a["name"], to="center", boundary="extend")
+        v = grid.interp(v, a["name"], to=want, boundary="extend")
+    return v
+
+
 def materialise(grid, ds, case, sel, like):
     out = None
     for name, interp in sel:
         v = ds[name].reset_coords(drop=True)
         if interp:
-            v = grid.interp_like(v, like, "extend", None)
+            v = interp_to_like(grid, case, v, like)
         out = v if out is None else out * v
     return out
 
@@ -107,7 +123,9 @@ def eval_case(case, drv):
     axes = case["axes"]
     ds, size = mg.build_dataset(axes, case["mvars"])
     coords = {a["name"]: dict(a["coords"]) for a in axes}
-    grid = xgcm.Grid(ds, coords=coords, boundary="extend", autoparse_metadata=False)
+    # the grid's own rule must not leak into the metric interpolation ("nearest-value extension")
+    gb = case.get("grid_boundary", "extend")
+    grid = xgcm.Grid(ds, coords=coords, boundary=gb, fill_value=case.get("grid_fill", 0.0), autoparse_metadata=False)
     for e in case["registry"]:
         grid.set_metrics(tuple(e["key"]), list(e["names"]))
     dims = [next(a for a in axes if a["name"] == n)["coords"][p] for n, p in case["pos"].items()]
